@@ -55,10 +55,17 @@ func dir() string {
 }
 
 func shard() string {
-	if s := os.Getenv("VERIF_SHARD"); s != "" {
-		return s
+	s := os.Getenv("VERIF_SHARD")
+	if s == "" {
+		s = "0"
 	}
-	return "0"
+	// native fuzzing runs the target in several worker processes: one stats file per process
+	for _, a := range os.Args {
+		if a == "-test.fuzzworker" || a == "-test.fuzzworker=true" {
+			return fmt.Sprintf("%s-w%d", s, os.Getpid())
+		}
+	}
+	return s
 }
 
 // For returns the collector of (property, part). part distinguishes several tests that
